@@ -29,7 +29,7 @@ def devs(a, b, mod):
 
 def scaling_events(chk, batch, rng, est, form, getter, x, c, dt):
     ok1, o1 = call_guard(getter, x)
-    ok2, o2 = call_guard(getter, c * x)
+    ok2, o2 = call_guard(getter, c * x)      # (a new array: live-object getters rescale their own data instead)
     mod = abs(c)
     if not (ok1 and ok2):
         ev = {'ev': 'scaling', 'est': est, 'form': form, 'key': 'call', 'dt': dt, 'raised': True,
@@ -63,6 +63,23 @@ def run(chk):
             for name in zoo.CLASSES + zoo.VARIANTS:
                 scaling_events(chk, batch, rng, name, 'class',
                                lambda d, nm=name: zoo.outputs(nm, zoo.build(nm, d, nfft)), x, c, dt)
+            # class form, live object: rescaling the data of an existing object (new array, or in place through the
+            # data attribute) rescales its estimate like a fresh object on the rescaled data
+            for name in zoo.CLASSES:
+                for how in ('assign', 'inplace'):
+                    def live(d, nm=name, hw=how):
+                        p = zoo.build(nm, x.copy(), nfft)
+                        p.psd
+                        if d is not x:
+                            if hw == 'assign':
+                                p.data = (c * x)
+                            else:
+                                if np.iscomplexobj(p.data) or not np.iscomplexobj(c):
+                                    p.data *= c
+                                else:
+                                    p.data = c * x
+                        return zoo.outputs(nm, p)
+                    scaling_events(chk, batch, rng, name, 'live-' + how, live, x, c, dt)
             for name in zoo.FUNCTIONS:
                 scaling_events(chk, batch, rng, name, 'function', lambda d, nm=name: zoo.functional(nm, d, nfft), x, c, dt)
             # decisions: subspace dimension chosen by AIC / MDL, Burg order chosen by a criterion
